@@ -362,7 +362,15 @@ func (r *Resolver) AutoTA() {
 					// self-signed revocation unseen for as long as the
 					// collision lasts.
 					old := kskCurrent[keyTag-DNSKEYFlagRevoke]
-					if dnskey.Flags&DNSKEYFlagRevoke == 0 || old == nil || !sameKeyExceptRevoke(old.DNSKey, dnskey) {
+					tracked := kskCurrent[keyTag]
+					switch {
+					case dnskey.Flags&DNSKEYFlagRevoke != 0 && old != nil && sameKeyExceptRevoke(old.DNSKey, dnskey):
+						// the revoked form of a current anchor takes the slot
+					case tracked != nil && tracked.DNSKey != nil && dnskeyMaterialFP(tracked.DNSKey) == dnskeyMaterialFP(dnskey):
+						// so does the key state already tracks under this
+						// tag: its presence is what the hold-downs below ask
+						// about
+					default:
 						zlog.Warn("Fetched KSKs share a key tag — keeping the first", "keytag", keyTag)
 						continue
 					}
@@ -490,7 +498,12 @@ func (r *Resolver) AutoTA() {
 	// keys or to adjacent state changes.
 	if !revocationOnly {
 		for tag, ta := range kskCurrent {
-			if kskFetched[tag] == nil {
+			// Present means this key, not merely a key with this tag: with
+			// a colliding tag in the zone, a pending key that had been
+			// withdrawn would otherwise sit out its hold-down on another
+			// key's presence and come out trusted.
+			fetched := kskFetched[tag]
+			if fetched == nil || ta.DNSKey == nil || dnskeyMaterialFP(fetched.DNSKey) != dnskeyMaterialFP(ta.DNSKey) {
 				// RFC 5011 §4 state table: the KeyRem event's effect
 				// depends on the prior state.
 				switch ta.State {
